@@ -203,6 +203,7 @@ func Execute(
 		}
 
 		// Wait before retry
+		backoff = verifBackoff(attempt, backoff)
 		select {
 		case <-ctx.Done():
 			return ctx.Err()
